@@ -379,6 +379,70 @@ pub fn run(started: Instant) -> i32 {
             all.push(Mutant { base: origs.len() - 1, kind: "identity", desc: format!("unaltered ({}, first file of {sz} bytes)", cfg.layers.tag()), bytes: a, all_orders: false, idx: sz });
         }
     }
+    // chosen content + a cut on a chunk edge: the original holds one file whose content carries, ending exactly
+    // on a chunk edge of the inner stream, a block sequence for a file "evil" followed by an index naming it and
+    // the index length. Cutting the archive after the tag of that chunk leaves a stream in which every chunk
+    // verifies (the format has no last-chunk marker) and whose last bytes are the attacker's index.
+    for cfg in [Cfg::new(L4::Encrypt)] {
+        let name = "f0";
+        let content_start = (1 + 8 + 8 + name.len()) + (1 + 8 + 8); // FileStart block + FileContent header
+        let sha = {
+            use sha2::Digest;
+            sha2::Sha256::digest(b"EVIL")
+        };
+        let mut region_len = 0usize;
+        let mut build_region = |e: u64| -> Vec<u8> {
+            let mut v = Vec::new();
+            v.push(0x00); // FileStart
+            v.extend_from_slice(&9u64.to_le_bytes());
+            v.extend_from_slice(&4u64.to_le_bytes());
+            v.extend_from_slice(b"evil");
+            let content_at = e + v.len() as u64;
+            v.push(0x01); // FileContent
+            v.extend_from_slice(&9u64.to_le_bytes());
+            v.extend_from_slice(&4u64.to_le_bytes());
+            v.extend_from_slice(b"EVIL");
+            let eof_at = e + v.len() as u64;
+            v.push(0xFF); // EndOfFile
+            v.extend_from_slice(&9u64.to_le_bytes());
+            v.extend_from_slice(&sha);
+            // index: {"evil": {offsets: [start, content], size: 4, eof_offset}}
+            let mut f = Vec::new();
+            f.extend_from_slice(&1u64.to_le_bytes());
+            f.extend_from_slice(&4u64.to_le_bytes());
+            f.extend_from_slice(b"evil");
+            f.extend_from_slice(&2u64.to_le_bytes());
+            f.extend_from_slice(&e.to_le_bytes());
+            f.extend_from_slice(&content_at.to_le_bytes());
+            f.extend_from_slice(&4u64.to_le_bytes());
+            f.extend_from_slice(&eof_at.to_le_bytes());
+            let flen = f.len() as u32;
+            v.extend_from_slice(&f);
+            v.extend_from_slice(&flen.to_le_bytes());
+            region_len = v.len();
+            v
+        };
+        let probe = build_region(0).len();
+        let k = (content_start + probe).div_ceil(CHUNK) + 1;
+        let e = k * CHUNK - probe;
+        let region = build_region(e as u64);
+        let mut content = crate::content::fill(0, 0, e - content_start, Entropy::Noise);
+        content.extend_from_slice(&region);
+        content.extend_from_slice(&crate::content::fill(0, 7, 2 * CHUNK + 5, Entropy::Noise));
+        let mut p = Program::new(vec![Op::Add(0, content.len())], Entropy::Noise);
+        p.custom = Some(vec![content.clone()]);
+        let _ = region_len;
+        if let Ok(Ok((a, _))) = guard(|| prog::build(&p, &cfg)) {
+            let hl = refstream::header_len(true, 1);
+            let cut = hl + k * (CHUNK + TAG);
+            if cut < a.len() {
+                origs.push(p.model().files);
+                all.push(Mutant { base: origs.len() - 1, kind: "cut_on_chunk_edge_after_embedded_index", desc: format!("archive cut after chunk {} ({} bytes), where the content of f0 holds an index naming \"evil\"", k - 1, cut), bytes: a[..cut].to_vec(), all_orders: false, idx: 0 });
+                // control: the same archive unaltered
+                all.push(Mutant { base: origs.len() - 1, kind: "identity", desc: "unaltered (archive with the embedded index)".to_string(), bytes: a, all_orders: false, idx: 1 });
+            }
+        }
+    }
     let origs = &origs;
     let mut rep = infra::par_explore(&all, |m, rep| {
         infra::watch_case(json!({"base": m.base, "mutant": m.desc}));
@@ -430,7 +494,7 @@ pub fn run(started: Instant) -> i32 {
             level: "fault_enumeration",
             rule: "encrypted base archives from the real writer (3 interleaved files, >=5 chunks; encrypt and encrypt+compress); mutants: every single-bit flip of every byte, every byte set to 00/FF, every truncation, all chunk swaps/duplications/deletions/replacements (same archive, sibling archive with another key), header field edits, and the downgrade (encryption bit cleared + unencrypted body substituted; also presented to the mlar binary with a private key, which must refuse it); each opened with the real ArchiveReader and all files read in all 6 orders (chunk edits, identity) or one rotating order, 7-byte or 4096-byte reads, reader configuration alternating between the default and one with the fail-safe-only option failsafe_return_data_even_unauthenticated() set. Oracle: every Ok(n) read equals the original bytes at that position (reads repeated on the same handle after an error included), no file ends early without an error, no flipped bit after the header goes unnoticed, no foreign name listed, the unaltered archive reads back completely - also for every first-file length 0..=block+chunk+tag+8 (3 files, encrypt and encrypt+compress), i.e. every alignment of the end of the inner stream. non-trivial = distinct (mutant, order) other than identity".to_string(),
             exhaustive: true,
-            bounds: json!({"bases": progs.len(), "mutation_operators": ["bitflip(all bits of all bytes)", "byteset 00/FF", "truncate(all lengths)", "chunk swap/duplicate/delete/replace/sibling/last-to-front", "header zero/increment/low-order point", "downgrade: ENCRYPT bit cleared + unencrypted body (library: known finding; mlar with a key: must refuse: list, cat, extract (both forms), to-tar, convert, repair (both modes) x 2 forms)"], "read_orders": "all 6 permutations for chunk edits and identity; rotating single order otherwise"}),
+            bounds: json!({"bases": progs.len(), "mutation_operators": ["bitflip(all bits of all bytes)", "byteset 00/FF", "truncate(all lengths)", "chunk swap/duplicate/delete/replace/sibling/last-to-front", "header zero/increment/low-order point", "cut on a chunk edge of an archive whose content embeds an index ending on that edge (chosen content)", "downgrade: ENCRYPT bit cleared + unencrypted body (library: known finding; mlar with a key: must refuse: list, cat, extract (both forms), to-tar, convert, repair (both modes) x 2 forms)"], "read_orders": "all 6 permutations for chunk edits and identity; rotating single order otherwise"}),
             assumptions: vec!["scaled constants; panics are counted here but judged by C08".to_string(), "forging a tag is assumed infeasible".to_string()],
         },
         started,
